@@ -42,8 +42,15 @@ def generate(ctx, quick):
 
 def to_history(i, fam, c, store=True):
     ops, exp = [], []
-    for r in c["runs"]:
-        ops += [{"op": "up_raw", "s": r["text"]}, {"op": "predict", "p": 0},
+    for j, r in enumerate(c["runs"]):
+        if j % 2 == 1 and c["nt"] > 0:
+            # a sentence object that already carries (stale) tags and labels: fill_tags must replace them all
+            t = r["text"]
+            first = {"op": "build", "sent": {"text": t, "bnd": [[1, 2, 0][(k + j) % 3] for k in range(len(t) - 1)],
+                                             "ntags": 3, "tags": [[[81], [], [82, 82]] for _ in t]}}
+        else:
+            first = {"op": "up_raw", "s": r["text"]}
+        ops += [first, {"op": "predict", "p": 0},
                 {"op": "fill_tags", "cands": store and c["nt"] > 0}]
         e = dict(r["expect"])
         if not (store and c["nt"] > 0):
